@@ -128,6 +128,13 @@ Flush ==
   /\ sub' = "await"
   /\ UNCHANGED <<phase, step, live, timers, conns, joined, coordOk, left, reachAtLeave, raised, inBackoff, rebDone, hasAssign>>
 
+\* the sender task is already dead (fatal error, e.g. fenced): stop() does not wait for the flush -- the flush task
+\* ends by itself because the dying sender failed every pending batch
+FlushSkipped ==
+  /\ phase = "closing" /\ Cur = "sender" /\ sub = "flush" /\ live["sender"] = 0
+  /\ sub' = "await"
+  /\ UNCHANGED <<phase, step, live, timers, conns, joined, coordOk, left, reachAtLeave, raised, waits, inBackoff, rebDone, hasAssign>>
+
 \* ---- every component: cancel its tasks, AWAIT them, swallow their CancelledError ---------------
 CloseComp ==
   /\ phase = "closing" /\ sub = "await"
@@ -149,9 +156,9 @@ CloseFetchRaises ==
   /\ raised' = TRUE /\ phase' = "stopped"
   /\ UNCHANGED <<step, sub, timers, conns, joined, coordOk, left, reachAtLeave, waits, inBackoff, rebDone, hasAssign>>
 
-Next == Churn \/ Env \/ StopCall \/ LastCommit \/ RebalanceCommit \/ Leave \/ Flush \/ CloseComp \/ CloseFetchRaises
+Next == Churn \/ Env \/ StopCall \/ LastCommit \/ RebalanceCommit \/ Leave \/ Flush \/ FlushSkipped \/ CloseComp \/ CloseFetchRaises
 Spec == Init /\ [][Next]_vars
-LiveSpec == Spec /\ WF_vars(LastCommit) /\ WF_vars(Leave) /\ WF_vars(Flush) /\ WF_vars(CloseComp) /\ WF_vars(CloseFetchRaises)
+LiveSpec == Spec /\ WF_vars(LastCommit) /\ WF_vars(Leave) /\ WF_vars(Flush) /\ WF_vars(FlushSkipped) /\ WF_vars(CloseComp) /\ WF_vars(CloseFetchRaises)
 
 \* ---- C19 -------------------------------------------------------------------------------------------
 TypeOK == phase \in {"running", "closing", "stopped"} /\ step \in 0..Len0(Comps)
